@@ -50,6 +50,13 @@ def c06(proj, rep, tier):
     rep.floor('N2 norms of explicitly batched vectors', n, 1)
     n = kdefects.ar1(proj, rep, None)
     rep.floor('AR1 ordered-role call sites in the package', n, 12)
+    n = boundary.c2(proj, rep)
+    rep.floor('C2 CHA boundary-history entries', n, 2)
+    ncache, nsites = ownership.o1(proj, rep, focus={'numqi.group.symext._get_symmetric_extension_irrep_coeff_internal', 'numqi.entangle.symext.get_symmetric_extension_index_list',
+                                                    'numqi.entangle.symext.get_cvxpy_transpose0213_indexing'})
+    rep.floor('O1 alias sites of the cached symmetric-extension tables', nsites, 3)
+    nf, ns = shapes.sh1b(proj, rep, ['numqi.entangle._misc.get_density_matrix_boundary'])
+    rep.floor('SH1 batched operations of get_density_matrix_boundary', ns, 5)
     rep.assume('threshold exactness, interpolation distance, every beta inequality of the hierarchy and "inner-model states pass '
                'outer tests" are eigenvalue / solver quantities: not decided. Decided: the structural necessary conditions - a genuine '
                'partial transpose for symbolic dims, monotone intersection of intervals, complete constraint sets that only grow.')
@@ -185,6 +192,12 @@ def c08(proj, rep, tier):
     rep.floor('E2 phase-folding obligations', n, 6)
     n = pauli.e4(proj, rep)
     rep.floor('E4 PauliOperator group-law obligations', n, 4)
+    n = typestate.h6(proj, rep, ['numqi.gate._pauli.PauliOperator'])
+    rep.floor('H6 memo-field stores of PauliOperator', n, 3)
+    n = typestate.o4(proj, rep, 'numqi.gate._pauli.PauliOperator', 'F2')
+    rep.floor('O4 external reads of PauliOperator.F2 (positive control)', n, 2)
+    n = shapes.sh4(proj, rep, ['numqi.gate._pauli'])
+    rep.floor('SH4 trailing-axis slices in the Pauli conversions', n, 1)
     n = pauli.e3(proj, rep)
     rep.floor('E3 rand_pauli hermiticity obligations', n, 2)
     ncache, nsites = ownership.o1(proj, rep, focus={'numqi.gate._pauli.get_pauli_group'})
@@ -336,6 +349,8 @@ def c10(proj, rep, tier):
     rep.floor('seed-accepting functions', nfun, 50)
     rep.floor('S2 nested seeded call sites', tot['S2'], 70)
     rep.floor('S4 generator draws', tot['S4'], 40)
+    n = typestate.o4(proj, rep, 'numqi.gate._pauli.PauliOperator', 'F2')
+    rep.floor('O4 external reads of PauliOperator.F2 (positive control)', n, 2)
     n = hermitian.hm1(proj, rep, ['numqi.random._internal'] if tier == 'quick' else sorted(proj.modules))
     rep.floor('HM1 self-adjoint compositions in the random generators', n, 8)
     rep.assume('calls through user callables (model(), gate.forward, theta0 callables) are not followed: the claim is '
@@ -355,7 +370,11 @@ def c11(proj, rep, tier):
     n = measure.m1(proj, rep)
     rep.floor('M1 bit-order obligation', n, 1)
     n = measure.m3(proj, rep)
-    rep.floor('M3 Born-rule / collapse structure obligations', n, 5)
+    rep.floor('M3 Born-rule / collapse structure obligations', n, 6)
+    n = ownership.pu1(proj, rep, ['numqi.sim.state'])
+    rep.floor('PU1 simulator primitives with in-place stores', n, 2)
+    n = adjoint.d1(proj, rep)
+    rep.floor('D1 circuit sweep obligations (measure branch goes through MeasureGate.forward)', n, 17)
 
 
 def c18(proj, rep, tier):
@@ -435,8 +454,8 @@ def c09(proj, rep, tier):
 def c14(proj, rep, tier):
     n = groups.gr1(proj, rep)
     rep.floor('GR1 left-regular placement', n, 1)
-    n = groups.gr2(proj, rep)
-    rep.floor('GR2 literal Klein table', n, 1)
+    n = groups.gr2(proj, rep) + groups.gr2b(proj, rep)
+    rep.floor('GR2 literal Klein table + quaternion seed', n, 3)
     n = groups.gr3(proj, rep)
     rep.floor('GR3 residue-arithmetic tables', n, 2)
     n = groups.gr4(proj, rep)
@@ -445,6 +464,8 @@ def c14(proj, rep, tier):
     rep.floor('GR5 hook-length obligations', n, 2)
     n = groups.gr6(proj, rep)
     rep.floor('GR6 partition recurrence', n, 1)
+    n = hermitian.hm2(proj, rep, ['numqi.group._internal'] if tier == 'quick' else sorted(proj.modules))
+    rep.floor('HM2 unitary changes of basis in the irrep reduction', n, 1)
     ncache, nsites = ownership.o1(proj, rep, focus={'numqi.group._symmetric._get_symmetric_group_cayley_table_hf0', 'numqi.group._symmetric._get_hook_length_hf0',
                                                     'numqi.group._symmetric._get_sym_group_num_irrep_hf0'})
     rep.assume('that a computed table satisfies the group axioms, that irreducible blocks are unitary homomorphisms with sum d^2 = |G|, that the Young-diagram '
